@@ -1,10 +1,11 @@
 #!/usr/bin/env python3
 """Regenerates /verif/MANIFEST.json from harness/props.json (claimed checks) + lib/manifest_meta.json (texts)."""
-import json, os
+import json, os, glob
 V = os.path.dirname(os.path.dirname(os.path.abspath(__file__)))
-import glob
 props = {os.path.basename(f)[:-5]: json.load(open(f)) for f in glob.glob(os.path.join(V, "harness", "props", "C*.json"))}
 meta = json.load(open(os.path.join(V, "lib", "manifest_meta.json")))
+for f in glob.glob(os.path.join(V, "lib", "meta", "C*.json")):
+    meta[os.path.basename(f)[:-5]] = json.load(open(f))
 ids = [json.loads(l)["id"] for l in open(os.path.join(V, "properties.jsonl")) if l.strip()]
 checks, na = [], []
 for pid in ids:
